@@ -949,7 +949,28 @@ def run_lifecycle(case):
             def dbus_Ping(self):
                 ran.append(self.tag + '.Ping')
                 return self.tag
-        w.conn.exportObject(Obj('/life', 'first'))
+        if case == 'adapted':
+            # a plain application object exported through a registered
+            # IDBusObject adapter (exportObject accepts anything adaptable)
+            from twisted.python import components
+
+            class App(object):
+                def __init__(self, tag):
+                    self.tag = tag
+            if not _ADAPTED:
+                components.registerAdapter(
+                    lambda a: a.make('/life', a.tag), App_base, O.IDBusObject)
+                _ADAPTED.append(True)
+
+            class App(App_base):
+                def __init__(self, tag):
+                    self.tag = tag
+
+                def make(self, path, tag):
+                    return Obj(path, tag)
+            w.conn.exportObject(App('first'))
+        else:
+            w.conn.exportObject(Obj('/life', 'first'))
         w.sent()
         serial = [3000]
 
@@ -977,7 +998,15 @@ def run_lifecycle(case):
                              'one %s' % (case, s, [_b(m) for m in msgs],
                                          'return %r' % (body,) if kind == 2
                                          else 'error ' + str(err))))
-        if case == 'close':
+        if case == 'adapted':
+            s = call('Ping')
+            want_one(s, replies(s), 2, ['first'])
+            s = call('Later', 's', ['y'])
+            held[0][0].callback('y!')
+            want_one(s, replies(s), 2, ['y!'])
+            w.conn.unexportObject('/life')
+            w.sent()
+        elif case == 'close':
             s = call('Close')
             want_one(s, replies(s), 2, ['closed-first'])
         elif case == 'close-fail':
@@ -1012,7 +1041,8 @@ def run_lifecycle(case):
         else:
             want_one(s, msgs, 3,
                      err='org.freedesktop.DBus.Error.UnknownObject')
-        want_ran = {'close': ['first.Close'],
+        want_ran = {'adapted': ['first.Ping', 'first.Later'],
+                    'close': ['first.Close'],
                     'close-fail': ['first.CloseFail'],
                     'later-unexport': ['first.Later'],
                     'later-unexport-fail': ['first.Later'],
@@ -1029,7 +1059,12 @@ def run_lifecycle(case):
     return viol
 
 
-LIFECYCLE = ['close', 'close-fail', 'later-unexport', 'later-unexport-fail',
+class App_base(object):
+    """application objects that are adaptable to IDBusObject"""
+
+
+_ADAPTED = []
+LIFECYCLE = ['adapted', 'close', 'close-fail', 'later-unexport', 'later-unexport-fail',
              'later-replace']
 
 
